@@ -661,13 +661,13 @@ func runC10(w *World, r *Report) {
 				continue
 			}
 			top := ownerOf(fn)
-			if want[top.Name()] || depth >= 3 || top.Object() == nil || top.Object().Exported() || usedAsValue(top) {
-				out = append(out, top.Name())
+			if want[refName(top)] || depth >= 3 || top.Object() == nil || top.Object().Exported() || usedAsValue(top) {
+				out = append(out, refName(top))
 				continue
 			}
 			up := callersOfWant(func(c ssa.CallInstruction) bool { return c.Common().StaticCallee() == top }, want, depth+1)
 			if len(up) == 0 {
-				out = append(out, top.Name())
+				out = append(out, refName(top))
 			}
 			out = append(out, up...)
 		}
@@ -1288,21 +1288,17 @@ func runC14(w *World, r *Report) {
 			continue
 		}
 		var sites []ssa.CallInstruction
-		instrsOf(f.fn, func(in ssa.Instruction) {
-			c, ok := in.(ssa.CallInstruction)
-			if !ok {
-				return
-			}
+		for _, d := range deepCalls(f.fn, func(c ssa.CallInstruction) bool {
 			name := ""
 			if c.Common().IsInvoke() {
 				name = c.Common().Method.Name()
 			} else if cal := c.Common().StaticCallee(); cal != nil {
-				name = cal.Name()
+				name = refName(cal)
 			}
-			if name == row.callee && errResult(c) != nil {
-				sites = append(sites, c)
-			}
-		})
+			return name == row.callee && errResult(c) != nil
+		}, deepDepth) {
+			sites = append(sites, d.c)
+		}
 		if len(sites) == 0 {
 			r.bad("transport-reports-failure", row.fn+"/"+row.callee, w.Pos(f.fn.Pos()), "anchor call "+row.callee+" exists in "+row.fn, "not found")
 			continue
@@ -1313,7 +1309,7 @@ func runC14(w *World, r *Report) {
 			for _, ret := range returnsOf(f.fn) {
 				vals, _ := resultVals(ret, len(ret.Results)-1)
 				for _, rv := range vals {
-					for _, o := range origins(rv) {
+					for _, o := range originsDeep(rv, deepDepth) {
 						if sameVal(o, ev) {
 							flows = true
 						}
